@@ -1,5 +1,5 @@
 (* Extraction of the C17 models and monitors.  ExtrOcamlBasic only. *)
-From RsM Require Import Lib.MachInt Model.Headers Model.Codecs Model.CodecsSpec.
+From RsM Require Import Lib.MachInt Model.Headers Model.Codecs Model.CodecsSpec Model.CodecsCheckin Model.CodecsBdx Model.CodecsBle Model.CodecsMdns.
 Require Import ExtrOcamlBasic.
 Extraction Language OCaml.
 Extraction "model.ml"
@@ -14,4 +14,16 @@ Extraction "model.ml"
   consumed
   mon_plain_rt mon_plain_dec mon_proto_rt mon_proto_dec
   mon_b38_rt mon_b38_dec mon_manual_rt mon_manual_dec
-  mon_qr_rt mon_qr_dec mon_sr_rt mon_sr_dec.
+  mon_qr_rt mon_qr_dec mon_sr_rt mon_sr_dec
+  checkin_generate checkin_parse mon_checkin_rt mon_checkin_dec
+  tc_of_byte tc_to_byte rc_of_byte rc_to_byte
+  init_decode init_encode accept_decode accept_encode
+  block_decode block_encode query_decode query_encode skip_decode skip_encode
+  mon_init_rt mon_init_dec mon_accept_rt mon_accept_dec mon_block_rt mon_block_dec
+  mon_query_dec mon_skip_dec
+  adv_encode adv_payload adv_parse adv_parse_service
+  radv_encode radv_payload radv_parse radv_parse_service
+  mon_adv_rt mon_adv_dec mon_radv_rt
+  txt_encode txt_decode txt_scan filter_matches session_params tcp_server comm_txt
+  comm_adv_valid op_label comm_label op_label_match comm_label_match parse_hex_u64
+  mon_comm_rt mon_txt_dec dec_print parse_uint.
